@@ -46,6 +46,7 @@ impl<'a> Question<'a> {
         qtype_of_code(code_of_qtype(self.qtype)) == Ok::<QTYPE, crate::SimpleDnsError>(self.qtype)
         && qclass_of_code(code_of_qclass(self.qclass)) == Ok::<QCLASS, crate::SimpleDnsError>(self.qclass)
     }
+    open spec fn wf_in_rdata() -> bool { false }
     open spec fn wf_nocomp() -> bool { false }
     proof fn lemma_rt(&self, pre: Seq<u8>) {
         let d = pre + self.wf_enc();
@@ -160,6 +161,7 @@ impl<'a> ResourceRecord<'a> {
                 _ => self.rdata.wf_enc().len() > 0,
             })
     }
+    open spec fn wf_in_rdata() -> bool { false }
     open spec fn wf_nocomp() -> bool { false }
     proof fn lemma_rt(&self, pre: Seq<u8>) {
         let lv = self.name.lv();
@@ -178,6 +180,7 @@ impl<'a> ResourceRecord<'a> {
         self.rdata.lemma_rt(d.subrange(0, q + 10));
         assert(d.subrange(0, p2) =~= d);
         assert(d =~= d.subrange(0, q + 10) + rd);
+        if !(self.rdata is Empty) && !(self.rdata is OPT) { lemma_cdec_is_dec(&self.rdata, d, q + 10, p2); }
     }
 """)
     c.append(rel, """verus!{
@@ -231,29 +234,12 @@ pub proof fn lemma_rr_fixed(rr: &ResourceRecord, data: Seq<u8>, q: int)
     }
 }
 
-/// ASSUMED, NOT PROVED (DESIGN.md section 4, C03 "footprint argument"): the two RDLENGTH octets of the record being written
-/// are written by the record writer itself and belong to no name, so no recorded suffix, nor the owner name, nor a name
-/// inside the RDATA is decoded through them; overwriting them (the seek-back patch) therefore preserves every decoding fact
-/// established before the patch.  This holds for every table produced by compress_append, but it is not a consequence of
-/// refs_ok alone; turning it into a theorem needs a footprint invariant on the table.
-#[verifier::external_body]
-pub proof fn axiom_rdlength_patch_frame<'a>(map: Map<&'a [Label<'a>], usize>, s4: Seq<u8>, s5: Seq<u8>, a: int, m0len: int, rr: &ResourceRecord<'a>)
-    requires
-        s4.len() == s5.len(), 0 <= m0len <= a, a + 2 <= s4.len(), s4[a] == 0 && s4[a + 1] == 0,
-        forall|i: int| 0 <= i < s4.len() && !(a <= i < a + 2) ==> s5[i] == s4[i],
-        refs_ok(map, s4), dec_labels(s4, m0len, 0) == Some(rr.name.lv()),
-        a == m0len + inplace_len(s4, m0len) + 8,
-        RData::wf_cdec(s4, a + 2, &rr.rdata, s4.len() as int),
-    ensures
-        refs_ok(map, s5), dec_labels(s5, m0len, 0) == Some(rr.name.lv()), inplace_len(s5, m0len) == inplace_len(s4, m0len),
-        RData::wf_cdec(s5, a + 2, &rr.rdata, s5.len() as int),
-{}
 }
 """)
     c.contract(rel, RR_WF, 'write_compressed_to', "", pre_body="""
         let ghost vx_m0 = io_buf(out);
 """)
-    c.ghost(rel, RR_WF, 'write_compressed_to', "self.name.write_compressed_to(out, name_refs)?;", "        let ghost vx_s1 = io_buf(out);", where='after')
+    c.ghost(rel, RR_WF, 'write_compressed_to', "self.name.write_compressed_to(out, name_refs)?;", "        let ghost vx_s1 = io_buf(out);\n        let ghost vx_t1 = name_refs@;", where='after')
     c.ghost(rel, RR_WF, 'write_compressed_to', "self.write_common(out)?;", """
         let ghost vx_s2 = io_buf(out);
         proof { assert(vx_s2 =~= vx_s1 + self.fixed_enc()); lemma_enc_be_len(self.ttl as nat, 4); }
@@ -273,16 +259,20 @@ pub proof fn axiom_rdlength_patch_frame<'a>(map: Map<&'a [Label<'a>], usize>, s4
         proof {
             let lval = (vx_s4.len() - vx_s2.len() - 2) as u16;
             assert(io_buf(out) == overwrite(vx_s4, vx_s2.len() as int, enc16(lval)));
-            lemma_rr_compressed(self, name_refs@, vx_m0, vx_s1, vx_s2, vx_s3, vx_s4, io_buf(out));
+            lemma_rr_compressed(self, name_refs@, vx_t1, vx_m0, vx_s1, vx_s2, vx_s3, vx_s4, io_buf(out));
         }
 """, where='after')
     c.append(rel, """verus!{
 /// the record-level composition for the compressing writer: owner name (s1), fixed part (s2), zeroed RDLENGTH (s3),
 /// RDATA (s4), RDLENGTH patched by seeking back (s5)
-pub proof fn lemma_rr_compressed<'a>(rr: &ResourceRecord<'a>, map: Map<&'a [Label<'a>], usize>, m0: Seq<u8>, s1: Seq<u8>, s2: Seq<u8>,
+pub proof fn lemma_rr_compressed<'a>(rr: &ResourceRecord<'a>, map: Map<&'a [Label<'a>], usize>, t1: Map<&'a [Label<'a>], usize>, m0: Seq<u8>, s1: Seq<u8>, s2: Seq<u8>,
                                      s3: Seq<u8>, s4: Seq<u8>, s5: Seq<u8>)
     requires
         rr.wf_ok(), rr.wf_canon(),
+        refs_ok(t1, s1),   // table after the owner name
+        // window clause of the RDATA writer (table t1 at its entry, buffer s3 at its entry)
+        forall|wa: int, mp: Seq<u8>| 0 <= wa && wa + 2 <= s3.len() && #[trigger] agree_out(s4, mp, wa) && refs_ok(t1, mp.subrange(0, s3.len() as int))
+            ==> refs_ok(map, mp) && RData::wf_cdec(mp, s3.len() as int, &rr.rdata, mp.len() as int),
         s1.len() >= m0.len(), s1.subrange(0, m0.len() as int) =~= m0,
         dec_labels(s1, m0.len() as int, 0) == Some(rr.name.lv()), s1.len() == m0.len() + inplace_len(s1, m0.len() as int),
         s1.len() - m0.len() <= wl(rr.name.lv()) + 1,
@@ -309,6 +299,7 @@ pub proof fn lemma_rr_compressed<'a>(rr: &ResourceRecord<'a>, map: Map<&'a [Labe
     assert(s4[a] == s3[a] && s4[a + 1] == s3[a + 1]) by { assert(s4.subrange(0, s3.len() as int)[a] == s3[a]); assert(s4.subrange(0, s3.len() as int)[a + 1] == s3[a + 1]); }
     assert(s5.len() == s4.len());
     assert forall|i: int| 0 <= i < s4.len() && !(a <= i < a + 2) implies s5[i] == s4[i] by {}
+    lemma_agree_intro(s4, s5, a);
     assert(s5[a] == enc16(lval)[0] && s5[a + 1] == enc16(lval)[1]);
     let x4 = s4.subrange(q, s4.len() as int);
     assert(s4 =~= s1 + x4) by {
@@ -316,7 +307,21 @@ pub proof fn lemma_rr_compressed<'a>(rr: &ResourceRecord<'a>, map: Map<&'a [Labe
     }
     lemma_append_stable(s1, x4, m0.len() as int, 0);
     lemma_inplace_append_stable(s1, x4, m0.len() as int, 0);
-    axiom_rdlength_patch_frame(map, s4, s5, a, m0.len() as int, rr);
+    // the seek-back patch: s5 agrees with s4 outside the RDLENGTH slot [a, a+2); instantiate the RDATA writer's window clause
+    lemma_agree_intro(s4, s5, a);
+    let s3p = s5.subrange(0, s3.len() as int);
+    assert(s3p =~= s1 + (rr.fixed_enc() + enc16(lval))) by {
+        assert forall|i: int| 0 <= i < a implies s5[i] == (s1 + rr.fixed_enc())[i] by { assert(s4.subrange(0, s3.len() as int)[i] == s3[i]); }
+    }
+    lemma_refs_append(t1, s1, rr.fixed_enc() + enc16(lval));
+    assert(refs_ok(map, s5) && RData::wf_cdec(s5, s3.len() as int, &rr.rdata, s5.len() as int));
+    // the owner name is decoded from bytes before the slot
+    let x5 = s5.subrange(q, s5.len() as int);
+    assert(s5 =~= s1 + x5) by {
+        assert forall|i: int| 0 <= i < q implies s5[i] == s1[i] by { assert(s4.subrange(0, s3.len() as int)[i] == s3[i]); }
+    }
+    lemma_append_stable(s1, x5, m0.len() as int, 0);
+    lemma_inplace_append_stable(s1, x5, m0.len() as int, 0);
     assert(s5.subrange(q, q + 8) =~= rr.fixed_enc()) by {
         assert forall|i: int| 0 <= i < 8 implies s5[q + i] == rr.fixed_enc()[i] by {
             assert(s4.subrange(0, s3.len() as int)[q + i] == s3[q + i]);
@@ -342,6 +347,7 @@ pub proof fn lemma_rr_compressed<'a>(rr: &ResourceRecord<'a>, map: Map<&'a [Labe
         RData::Empty(t) => { }
         _ => {
             assert(s4.len() > s3.len());
+            lemma_cdec_is_dec(&rr.rdata, s5, q + 10, p2);
             assert(rdata_dec(s5, q + 10, ty, &rr.rdata, p2));
         }
     }
